@@ -161,3 +161,99 @@ claim("C02",
       "recorded finding F14 (see KNOWN_FINDINGS.txt)." + COMMON_NOTE,
       "Coq proof (history invariant by induction) + refutation witness + random histories on the real binary",
       "DESIGN.md section 6, C02")
+
+
+claim("C17",
+      "Theorems (Coq), for the grammar GENERATED from rust_grammar.pest on this run: C17_grammar_wf (no repetition "
+      "body of the start rule, WHITESPACE or COMMENT can succeed without consuming; the implicit skip cannot fail) by "
+      "computation; C17_parse_terminates (for ANY grammar with that property parsing ANY text terminates -- generic "
+      "proof that the model's repetition loop never runs out of fuel); C17_finder_total: for EVERY text and "
+      "configuration the finder returns normally -- unreachable!() is unreachable (only log_macro/other_name/EOI can "
+      "stand under `file`: computed), every slice and line/column computation is at a char boundary (node spans are, "
+      "for any grammar: TokenFacts), the directive scan slices at the end of the statement's first character; "
+      "C17_invalid_utf8_skipped / C17_no_file_panics on the driver. Tie: finder and model on a malformed stream "
+      "(token soup, char/byte mutations, Unicode injection, edge shapes), both modes of the real binary on that "
+      "stream, the corpus and large files (exit must be 0/1), unreadable file skipped, and measured size scaling.",
+      "Run time is measured, not proved (termination is). Panics inside dependencies are outside the model. The slice "
+      "bounds of the rewriter (positions <= file length) are covered by the byte-level correspondence, not yet by a "
+      "theorem." + COMMON_NOTE,
+      "Coq proof (generic PEG termination + token-position invariants + computed grammar conditions) + malformed-input campaign",
+      "DESIGN.md section 6, C17")
+
+
+claim("C06",
+      "Theorems (Coq): C06_complete_tree_is_fixpoint -- for EVERY tree in which no statement of any readable file "
+      "lacks a reference, an uninterrupted edit run exits 0, writes no ID, changes no source byte and leaves the lock "
+      "value as it is (proved on the driver for any finder; the finder's totality from C17 discharges the no-panic "
+      "side condition); C06_check_passes_on_complete_tree; and the token-level round trips "
+      "C06_message_token_roundtrip (the inserted token, whatever follows, is read back with its ID through the "
+      "translated regex) and C06_structured_value_roundtrip (the digits written after `ref = `, followed by any "
+      "blanks, parse back to the ID). NOT proved: that after an edit every edited statement is recognised again at "
+      "the statement level for all canonical files (that needs the full parser specification theorem); this half is "
+      "decided by exploration: edit / check / second edit of the real binary on generated canonical trees, small-scope "
+      "trees and the Rust corpus, with every inserted ID read back through the implementation's finder.",
+      "Partial: statement-level round trip is explored, not proved." + COMMON_NOTE,
+      "Coq proof (driver fixpoint + token round trips) + edit/check/edit campaign on the real binary",
+      "DESIGN.md section 6, C06")
+
+
+PARSER_NOTE = (" Partial as a proof: the theorems cover the implicit skip for ALL layouts (proved against the "
+               "generated WHITESPACE/COMMENT rules), the name test, and the glue on ANY parse tree of canonical shape; "
+               "that the generated grammar yields a tree of that shape for EVERY canonical statement text (the full "
+               "parser specification theorem) is not proved -- that link is the differential correspondence of the "
+               "Peg.v/Glue.v model with the implementation plus the property-text oracle campaign.")
+
+claim("C10",
+      "Theorems (Coq): C10_layout_is_skipped -- for ANY layout (whitespace run, then any number of line/block "
+      "comments with arbitrary text, each followed by whitespace) pest's implicit skip, as generated from the "
+      "WHITESPACE and COMMENT rules of rust_grammar.pest on this run, consumes exactly the layout (proved by "
+      "induction against the generated rule constants); C10_configured_names (a name counts iff it is a configured "
+      "name, bare or qualified with exactly its module path); C10_message_entry (for ANY parse tree of canonical "
+      "shape -- optional target, any number of key-values, message literal -- the entry is at the first character "
+      "of the message value, reference read from the literal's text). Tie and violation search: files rendered from "
+      "the canonical file language with an oracle computed from the property text alone, compared with the "
+      "implementation's finder, the extracted model, and --check / edit of the real binary.",
+      "Known finding F12 (comment opener inside an ordinary string literal hides following statements) is replayed "
+      "and reported as KNOWN-FINDING." + PARSER_NOTE + COMMON_NOTE,
+      "Coq proof (rule lemmas on the generated grammar + glue specification) + oracle-based differential campaign",
+      "DESIGN.md section 6, C10")
+
+claim("C11",
+      "Theorems (Coq): C11_comment_only_file -- a file consisting only of comments and whitespace (ANY text inside "
+      "the comments, commented-out statements included, also a line comment on the last line WITHOUT newline) yields "
+      "no entry, for every configuration (proved against the generated grammar: the F8 defect would break this "
+      "proof); C11_comments_are_skipped (anywhere in a file); C11_unconfigured_or_ignored_is_skipped (any name that "
+      "is not configured, and any statement under an ignore directive, gives no entry whatever its arguments). "
+      "Tie and violation search: decoys (comments of all styles, unconfigured names incl. prefix/suffix/other "
+      "module path/other case, configured names without literal message, macro-like text in string literals) among "
+      "real statements with the property-text oracle, and decoy-only trees through both modes of the real binary.",
+      PARSER_NOTE + COMMON_NOTE,
+      "Coq proof (comment/skip rule lemmas on the generated grammar + glue) + decoy campaign",
+      "DESIGN.md section 6, C11")
+
+claim("C13",
+      "Theorems (Coq): C13_structured_entry -- for ANY parse tree of canonical shape with ANY number of key-values "
+      "(not 0-3), in structured mode: the first key-value with key text `ref` that has a value is the reference "
+      "position and its trimmed text parsed as u32 is the reference; otherwise the insertion point is after the "
+      "target argument if present else after the bracket, and the token ends with `, ` when other key-values exist "
+      "and `; ` when alone; C13_unusable_never_missing (a ref with a non-integer value is unusable: none of the three "
+      "processors counts or edits it); C13_written_value_is_recognised (what Breadlog writes parses back). Tie: "
+      "structured statements over the key-value grammar with the property-text oracle on finder, model and binary; "
+      "unusable refs reported as such and left alone.",
+      "Known finding F10b (a comment between the ref value and its delimiter makes the reference unusable) is replayed "
+      "and reported as KNOWN-FINDING." + PARSER_NOTE + COMMON_NOTE,
+      "Coq proof (glue specification over all canonical trees) + oracle-based differential campaign",
+      "DESIGN.md section 6, C13")
+
+claim("C14",
+      "Theorems (Coq) on the directive scan: C14_blank_lines_are_skipped, C14_code_line_in_between (the nearest "
+      "non-blank line decides alone; a non-comment line means no directive whatever stands above), "
+      "C14_only_nearest_line_matters (lines further up are never looked at), C14_nothing_above; with "
+      "C11_unconfigured_or_ignored_is_skipped (ignore => no entry) and C10_message_entry (no-kvp => message-style "
+      "entry). The regex-level recognition of the directive spellings is NOT proved; it is decided by exploration: "
+      "generated files with directives / near-misses in every position relative to 1-3 statements, blank-line runs, "
+      "indentation, both comment styles, CRLF, plus an enumerated set of placements, against the property-text oracle "
+      "on finder, model (translated comment regex, generated Unicode tables) and binary.",
+      PARSER_NOTE + COMMON_NOTE,
+      "Coq proof (directive-scan lemmas) + enumerated/generated placement campaign",
+      "DESIGN.md section 6, C14")
